@@ -16,6 +16,16 @@ CHECKS = {
              "it says nothing about operands outside it.",
         note="trusted: the reference model, Python floats and libm pow/fmod, clang sanitizers; operands bound through the C++ API (exact bits)",
         design="DESIGN.md section 4, C03"),
+    "C04": dict(
+        engine="E1 space",
+        technique="complete enumeration of truth value x provenance pairs on the real interpreter against Kleene tables, with re-evaluation of the same node",
+        text="All pairs of {true,false,null} x 9..11 provenances (constant, typed constructor, variable, undefined-type variable, function result, table "
+             "element, tuple item, result of not/comparison) for and/&&/or/||/xor and not/!, every relational operator with a null side for every "
+             "scalar type and null provenance, and if/elsif/while conditions are run on the real interpreter; each expression is evaluated once and "
+             "three more times by the same program node inside a loop, pairs of expressions share one loop body, and a fixed probe program checks "
+             "afterwards that null, isnull(null), typeof(null) and all variables still mean the same. The space is finite and enumerated completely.",
+        note="trusted: Kleene tables, print formatting of TRUE/FALSE/null; conditions of undefined static type refused at compile time are not counted",
+        design="DESIGN.md section 4, C04"),
 }
 
 NOT_YET = {}
